@@ -154,14 +154,17 @@ def impl_seg_dict(seg):
     return d
 
 
-def compare_segment(iseg, rseg, rel=1e-9, arc_grid=16, arc_geometry=True):
-    """-> list of problem strings (empty = the implementation segment is the reference segment)"""
+def compare_segment(iseg, rseg, rel=1e-12, arc_grid=16, arc_geometry=True, scale=None):
+    """-> list of problem strings (empty = the implementation segment is the reference segment).
+    Points are sums / differences of a handful of parsed doubles: they are compared to rel x the largest coordinate
+    magnitude met so far in the path (`scale`; cancellation keeps the absolute error of the large intermediate), i.e.
+    to a few thousand units in the last place - a parser that rounds or truncates coordinates is a violation."""
     probs = []
     want = KINDMAP[rseg.kind]
     got = type(iseg).__name__
     if got != want:
         return ["segment kind %s, expected %s" % (got, want)]
-    tol = rel * seg_scale(rseg)
+    tol = rel * (scale if scale is not None else seg_scale(rseg))
     if rseg.kind != "Move":
         if not close_pt(pt(iseg.start), rseg.start, tol):
             probs.append("start %r, expected %r" % (pt(iseg.start), rseg.start))
@@ -195,7 +198,7 @@ def arc_degenerate(rseg):
     return rseg.start == rseg.end or rseg.arc[0] == 0 or rseg.arc[1] == 0
 
 
-def compare_path(ipath_segments, rsegs, out, what, tags=None, rel=1e-9, arc_geometry=True):
+def compare_path(ipath_segments, rsegs, out, what, tags=None, rel=1e-12, arc_geometry=True):
     """compares lists; records discrepancies into Outcome `out`; returns number of transitions compared"""
     tags = tags or {}
     n = 0
@@ -205,13 +208,15 @@ def compare_path(ipath_segments, rsegs, out, what, tags=None, rel=1e-9, arc_geom
         return n
     prev_end = None
     sub_start = None
+    hist = 1.0
     for idx, (iseg, rseg) in enumerate(zip(ipath_segments, rsegs)):
         n += 1
+        hist = max(hist, seg_scale(rseg))
         if arc_degenerate(rseg):
             prev_end = pt(iseg.end)
             continue
-        probs = compare_segment(iseg, rseg, rel=rel, arc_geometry=arc_geometry)
-        tol = rel * seg_scale(rseg)
+        probs = compare_segment(iseg, rseg, rel=rel, arc_geometry=arc_geometry, scale=hist)
+        tol = rel * hist
         # connectivity recomputed from public fields (independent of the reference's coordinates)
         if type(iseg).__name__ == "Move":
             sub_start = pt(iseg.end)
